@@ -53,9 +53,11 @@ Graceful(s) == /\ Handling = {}
 Slack == 1500000
 Max(a, b) == IF a > b THEN a ELSE b
 InTime(i, t, timeout) == t <= Max(tcall[i], lastRet) + timeout + Slack
-CloseRetNil(i, states, t, timeout) ==
+\* np: the publishers of the started handlers; their Close() calls have returned by then ("Close closes every handler's ... publisher")
+CloseRetNil(i, states, t, timeout, np) ==
     /\ i \in pend /\ pend' = pend \ {i}
     /\ Graceful(Sampled(states))
+    /\ pubClosed >= np
     /\ InTime(i, t, timeout) /\ lastRet' = Max(lastRet, t)
     /\ st' = Sampled(states) /\ okClosed' = TRUE
     /\ UNCHANGED <<msg, closing, timedOut, subClosed, pubClosed, runRet, tcall>>
@@ -79,6 +81,11 @@ RunRet(states, t, timeout) ==
                      ELSE Graceful(Sampled(states))
                   /\ runRet' = TRUE /\ st' = Sampled(states)
                   /\ UNCHANGED <<msg, closing, okClosed, timedOut, pend, subClosed, pubClosed, tcall, lastRet>>
+
+\* Run gave up with an error while it was starting the handlers (a Subscribe call failed): nothing was closed, handlers
+\* started before the failing one keep working, and a later Close still has to wait for their invocations
+RunFail == /\ ~runRet /\ ~closing /\ runRet' = TRUE
+           /\ UNCHANGED <<msg, st, closing, okClosed, timedOut, pend, subClosed, pubClosed, tcall, lastRet>>
 
 \* all obligations discharged: every Close call returned, Run returned, subscriber and publisher of
 \* every handler were closed (nh handlers), final settlements are consistent
